@@ -86,6 +86,57 @@ def f32Ops : Ops Float32 where
   isnan := Float32.isNaN
   isinf := Float32.isInf
 
+/-! machine integers: C++ `int` / `unsigned` (two's complement, wrap-around; `/` and `%` truncate) -/
+def i32Ops : Ops Int32 where
+  lit n _ := Int32.ofInt n
+  konst _ := 0
+  add := (· + ·)
+  sub := (· - ·)
+  mul := (· * ·)
+  div a b := if b == 0 then 0 else a / b
+  neg := (- ·)
+  call1 _ a := a
+  call2 _ a _ := a
+  call3 _ a _ _ := a
+  band := (· &&& ·)
+  bor := (· ||| ·)
+  bxor := (· ^^^ ·)
+  bnot := (~~~ ·)
+  shl a b := a <<< b
+  shr a b := a >>> b
+  imod a b := if b == 0 then 0 else a % b
+  cast _ a := a
+  lt a b := a < b
+  le a b := a ≤ b
+  eq a b := a == b
+  isnan _ := false
+  isinf _ := false
+
+def u32Ops : Ops UInt32 where
+  lit n _ := UInt32.ofInt n
+  konst _ := 0
+  add := (· + ·)
+  sub := (· - ·)
+  mul := (· * ·)
+  div a b := if b == 0 then 0 else a / b
+  neg := (- ·)
+  call1 _ a := a
+  call2 _ a _ := a
+  call3 _ a _ _ := a
+  band := (· &&& ·)
+  bor := (· ||| ·)
+  bxor := (· ^^^ ·)
+  bnot := (~~~ ·)
+  shl a b := a <<< b
+  shr a b := a >>> b
+  imod a b := if b == 0 then 0 else a % b
+  cast _ a := a
+  lt a b := a < b
+  le a b := a ≤ b
+  eq a b := a == b
+  isnan _ := false
+  isinf _ := false
+
 /-- operations the executable float semantics does not implement (unit is then skipped, and counted) -/
 def E.execUnsupported : E → Bool
   | .call2 .fmod _ _ | .call3 _ _ _ _ => true
@@ -152,6 +203,7 @@ def parseNode (s : PState) (p : List String) : Except String E :=
   | ["lit", m, e] => match m.toInt?, e.toInt? with
     | some m, some e => pure (litOfME m e)
     | _, _ => throw "lit"
+  | ["liti", n] => match n.toInt? with | some n => pure (.lit n 1) | none => throw "liti"
   | ["konst", k] => match parseKonst k with | some k => pure (.konst k) | none => throw "konst"
   | ["add", a, b] => return .add (← s.e a) (← s.e b)
   | ["sub", a, b] => return .sub (← s.e a) (← s.e b)
